@@ -26,6 +26,13 @@
 (*                          not reached the side the request was sent from *)
 (*                          - whatever flag the result was published with: *)
 (*                          the request's own flag is spent after one hop  *)
+(*   C16.ClientUpdateMissing / C16.ClientUpdateDuplicate                   *)
+(*                          at rest (Update event, n = number of state     *)
+(*                          updates seen): the state update of a task of   *)
+(*                          the client, published on a pilot through       *)
+(*                          advance(.., fwd=True), was seen by the state   *)
+(*                          subscribers of the client side not at all /    *)
+(*                          more than once - whatever else was in the bulk *)
 (*   C16.Missing            at rest, a side has not got a message it is    *)
 (*                          due (forwarded: every side; else: the          *)
 (*                          publishing side)                               *)
@@ -144,6 +151,10 @@ Step ==
                /\ infl' = infl - 1
                /\ errs' = errs
                /\ UNCHANGED <<pub, got>>
+          [] e.ev = "Update" ->
+               /\ errs' = errs \cup E(e.n >= 1, "C16.ClientUpdateMissing")
+                               \cup E(e.n <= 1, "C16.ClientUpdateDuplicate")
+               /\ UNCHANGED <<pub, got, infl>>
           [] e.ev = "Quiet" ->
                /\ errs' = errs
                     \cup E(e.drained, "C16.Circulates")
